@@ -3,3 +3,5 @@
 package packet
 
 func verifReceive(*Writer, *Reader, *Packet) func() { return func() {} }
+
+func verifTrace(*Tracer, string, *Reader, *Writer, *Packet, *Packet, bool) {}
